@@ -90,7 +90,8 @@ func (f *Defmacro) Call(s *slip.Scope, args slip.List, depth int) (result slip.O
 			_, _ = fmt.Fprintf(w, "WARNING: redefining %s:%s in defmacro\n", slip.CurrentPackage.Name, low)
 		}
 	}
-	slip.CurrentPackage.DefLambda(low, lc, fc, slip.MacroSymbol)
+	// From here on lc, which fc refers to, is the Lambda registered for the name.
+	lc = slip.CurrentPackage.DefLambda(low, lc, fc, slip.MacroSymbol)
 	if 0 < len(s.Parents()) {
 		lc.Closure = s
 	}
